@@ -1205,6 +1205,7 @@ func Fold(w *load.World, c *core.Collector) {
 				type member struct {
 					fields  []string
 					lowered bool
+					rawAlt  bool // the operand is a choice between the folded and the unfolded value
 				}
 				var ms []member
 				for i := 0; i < osig.Params().Len(); i++ {
@@ -1223,7 +1224,17 @@ func Fold(w *load.World, c *core.Collector) {
 						fs = append(fs, o.structT+"."+o.field)
 					}
 					sort.Strings(fs)
-					ms = append(ms, member{fs, lowered})
+					rawAlt := false
+					if phi, ok := arg.(*ssa.Phi); ok {
+						for _, e := range phi.Edges {
+							var l bool
+							foldSlice(e, map[ssa.Value]bool{}, map[fieldOrigin]bool{}, &l)
+							if !l {
+								rawAlt = true
+							}
+						}
+					}
+					ms = append(ms, member{fs, lowered, rawAlt})
 				}
 				any, all := false, true
 				for _, m := range ms {
@@ -1236,7 +1247,19 @@ func Fold(w *load.World, c *core.Collector) {
 				n++
 				foldsIn[topOf(f)] = true
 				key := "siblings:" + load.FnKey(f) + "->" + load.FnKey(callee)
-				if all {
+				// folded under the same condition: an operand that is folded whatever the index's case
+				// sensitivity next to one that is folded only when the index is case-insensitive
+				condMismatch := ""
+				for _, m := range ms {
+					for _, m2 := range ms {
+						if m.lowered && m2.lowered && m.rawAlt && !m2.rawAlt {
+							condMismatch = strings.Join(m2.fields, "+")
+						}
+					}
+				}
+				if all && condMismatch != "" {
+					c.Add("FOLD", key, core.Violation, w.At(in), fmt.Sprintf("%s is case-folded unconditionally while its sibling operands are folded only when the index is case-insensitive: on a case-sensitive index it no longer lines up with the stored keys", condMismatch), props...)
+				} else if all {
 					c.Add("FOLD", key, core.OK, w.At(in), "", props...)
 				} else {
 					var raw []string
